@@ -146,3 +146,65 @@ Proof.
   rewrite (map_nth (fun j => negb (existsb (fun i0 => dom_cell strict objs rows i0 j) (seq 0 (length rows))))).
   rewrite seq_nth by exact Hi. reflexivity.
 Qed.
+
+(* ---- what each operator means, in the order of the rationals -------------------------------------------- *)
+Theorem sat_meaning c x :
+  sat c x = true <->
+  match c with
+  | CGt v => (v < x)%Q | CGe v => (v <= x)%Q | CLt v => (x < v)%Q | CLe v => (x <= v)%Q
+  | CEq v => (x == v)%Q | CNe v => ~ (x == v)%Q
+  | CIn s => exists y, In y s /\ (x == y)%Q
+  | CNotIn s => forall y, In y s -> ~ (x == y)%Q
+  | CFn k => palette k x = true
+  end.
+Proof.
+  destruct c as [v|v|v|v|v|v|s|s|k]; cbn [sat].
+  - apply Qltb_lt.
+  - apply Qleb_le.
+  - apply Qltb_lt.
+  - apply Qleb_le.
+  - apply Qeqb_eq.
+  - rewrite negb_true_iff. apply Qeqb_neq.
+  - rewrite existsb_exists. split; intros [y [Hy E]]; exists y; split; auto; apply Qeqb_eq; exact E.
+  - rewrite negb_true_iff. split.
+    + intros H y Hy E. assert (T : existsb (Qeqb x) s = true).
+      { apply existsb_exists. exists y. split; [exact Hy|apply Qeqb_eq; exact E]. }
+      congruence.
+    + intros H. destruct (existsb (Qeqb x) s) eqn:E; [|reflexivity].
+      apply existsb_exists in E. destruct E as [y [Hy E]]. apply Qeqb_eq in E. exfalso. exact (H y Hy E).
+  - tauto.
+Qed.
+
+(* the operators come in complementary pairs: exactly one of each pair holds of every value *)
+Theorem sat_complements x :
+  (forall s, sat (CNotIn s) x = negb (sat (CIn s) x)) /\
+  (forall v, sat (CNe v) x = negb (sat (CEq v) x)) /\
+  (forall v, sat (CLe v) x = negb (sat (CGt v) x)) /\
+  (forall v, sat (CLt v) x = negb (sat (CGe v) x)).
+Proof.
+  repeat split; intros; cbn [sat]; try reflexivity.
+  - unfold Qleb, Qltb. rewrite <- (Qcompare_antisym x v). destruct (x ?= v)%Q; reflexivity.
+  - unfold Qleb, Qltb. rewrite <- (Qcompare_antisym x v). destruct (x ?= v)%Q; reflexivity.
+Qed.
+
+(* >= is > or ==, <= is < or == *)
+Theorem sat_weak_is_strict_or_equal v x :
+  sat (CGe v) x = sat (CGt v) x || sat (CEq v) x /\ sat (CLe v) x = sat (CLt v) x || sat (CEq v) x.
+Proof.
+  cbn [sat]. unfold Qleb, Qltb, Qeqb. rewrite <- (Qcompare_antisym x v). destruct (x ?= v)%Q; split; reflexivity.
+Qed.
+
+(* two filters one after the other keep what one filter with both lists of conditions keeps; and adding
+   conditions never brings an alternative back *)
+Theorem survives_app crits c1 c2 r :
+  survives crits (c1 ++ c2) r = survives crits c1 r && survives crits c2 r.
+Proof. unfold survives. apply forallb_app. Qed.
+
+Theorem more_conditions_keep_fewer crits c1 c2 r :
+  survives crits (c1 ++ c2) r = true -> survives crits c1 r = true.
+Proof. rewrite survives_app. intros H. apply andb_true_iff in H. tauto. Qed.
+
+(* a single-valued set: FilterIn keeps exactly the alternatives with that value, FilterNotIn the others *)
+Theorem single_valued_sets v x :
+  sat (CIn [v]) x = sat (CEq v) x /\ sat (CNotIn [v]) x = sat (CNe v) x.
+Proof. cbn [sat existsb]. rewrite orb_false_r. split; reflexivity. Qed.
